@@ -221,8 +221,14 @@ pub fn stream_verdict(sigs: &[Sig], st: &mut FlowState, seg: &[u8], ctx: &AppCtx
                             }
                         }
                         AppVerdict::Unspecified(_) | AppVerdict::IfAnswered(..) => st.muddled = true,
-                        // a first segment that was not answered leaves the flow in a state the
-                        // statements do not describe (partial message)
+                        // an SSH identification that is not answered (unterminated / malformed) leaves
+                        // the connection with the SSH responder, which judges every segment as an
+                        // identification of its own (C18: every well-formed identification is
+                        // answered); for the other protocols a first segment that was not answered
+                        // leaves the flow in a state the statements do not describe
+                        AppVerdict::Silent(..) if matches!(p, Proto::Ssh) && d_len_is_signature(&d, st.stream.len()) => {
+                            st.per_message = Some(p);
+                        }
                         _ => st.muddled = true,
                     }
                     v
@@ -233,6 +239,11 @@ pub fn stream_verdict(sigs: &[Sig], st: &mut FlowState, seg: &[u8], ctx: &AppCtx
             }
         },
     }
+}
+
+/// the whole stream so far reaches at least the end of the completed signature
+fn d_len_is_signature(d: &Dispatch, stream_len: usize) -> bool {
+    matches!(d, Dispatch::Matched(_, _, n) if *n <= stream_len)
 }
 
 /* ------------------------------------------------------------------ HTTP */
